@@ -277,8 +277,9 @@ func runScenario(sc scenario, script []int, deterministic bool) *outcome {
 			}()
 			t := sc.threads[i]
 			h := hs[i]
-			for _, o := range t.ops {
+			for k, o := range t.ops {
 				var err error
+				h.tb.op = k
 				switch {
 				case o.kind == 'O':
 					var ring api.MutableKeyRing
@@ -559,4 +560,6 @@ func judge(r checker, o *outcome) {
 			r.Check(found, "dangling-current", desc(fmt.Sprintf("current marker %d names no key in %s", fin.current, fin)))
 		}
 	}
+	// 4. the history as a whole: some sequential order of the operations explains results and final rings
+	judgeLinearizable(r, o)
 }
